@@ -1408,6 +1408,13 @@ std::string Generator::GeneratorImpl::generateCode(const AnalyserEquationAstPtr 
 
     std::string code;
 
+    // Make sure that we have an AST to generate some code for (e.g. a piecewise statement with no piece has no
+    // children).
+
+    if (ast == nullptr) {
+        return code;
+    }
+
     switch (ast->type()) {
     case AnalyserEquationAst::Type::EQUALITY:
         code = generateOperatorCode(mProfile->equalityString(), ast);
@@ -1726,7 +1733,11 @@ std::string Generator::GeneratorImpl::generateCode(const AnalyserEquationAstPtr 
     case AnalyserEquationAst::Type::PIECEWISE: {
         auto astRightChild = ast->rightChild();
 
-        if (astRightChild != nullptr) {
+        if (ast->leftChild() == nullptr) {
+            // A piecewise statement with no piece (and no otherwise) has no value.
+
+            code = mProfile->nanString();
+        } else if (astRightChild != nullptr) {
             if (astRightChild->type() == AnalyserEquationAst::Type::PIECE) {
                 code = generateCode(ast->leftChild()) + generatePiecewiseElseCode(generateCode(astRightChild) + generatePiecewiseElseCode(mProfile->nanString()));
             } else {
